@@ -166,6 +166,8 @@ type Payload struct {
 	body   any
 	hash   H
 	hashed bool
+
+	srcNode int // harness bookkeeping: id of the node whose Broadcast produced it (-1: scripted)
 }
 
 var _ dbft.ConsensusPayload[H] = (*Payload)(nil)
